@@ -25,6 +25,15 @@ CHECKS = {
  "C11": dict(engine="grid", design="5 C11", technique="TLA+ transcription of _TabulationCutoff._init_cutoff (Grid.tla) checked by TLC against the declarative decision table for all 216 presence/sign classes; decision table and a decimal commensurate lattice emitted by TLC replayed on ConfigParser, Configuration.read and written tables for both grids",
    text="ImplAgrees (transcription = statement) for every class of (nr, dr, cutoff); the replay runs each class and ~2.5k (quick) / ~70k (thorough) decimal (step, k) pairs typed as decimal strings through the real parser for both grids, and reads row count, spacing and last row back from LAMMPS, setfl and Excel tables.",
    note="The unrepaired-code model (Python truthiness) is kept as Grid_code.cfg and must violate ImplAgrees (anti-vacuity). Two genuine defects repaired (F01, F19)."),
+ "C13": dict(engine="inidoc", design="5 C13", technique="TLA+ model of filtered views over one parsed file (Views.tla: Create/Read histories, ReadIsFilter invariant, SharedSlot deviation) checked by TLC; every (file, view) case replayed through potable --include/--exclude-species and FilteredConfigParser against the hand-deleted file rendered from the spec's DeleteMentioning; all create/read histories of <=3 events replayed on real views",
+   text="ReadIsFilter and SurvivorsInOrder for every history of <=3 events over 2 views x 32 filters x 2 files; the replay compares outputs on 7 (EAM file) / 3 (Finnis-Sinclair file) targets with those of the file from which the unwanted entries were deleted, for all 64 (file, view) pairs incl. empty sets and unknown labels, via CLI and API, and checks every read in every history against the TLC-computed filtered list.",
+   note="The hand-deleted file keeps its section headers. ADP dipole/quadrupole sections are not named by the statement. Defects F04, F05 repaired."),
+ "C15": dict(engine="inidoc", design="5 C15", technique="TLA+ model of the templated file (Vars.tla: positions lifted into [Variables], naming schemes, unreferenced variables; InterpolationIsSubstitution and VariablesInert; DefaultsLeak deviation) checked by TLC; every emitted template rendered and tabulated through Configuration.read and the CLI against the substituted file",
+   text="For every subset of <=3 (quick) / all 9 (thorough) literal positions across [Tabulation], [Pair], [Potential-Form], [Species], [Table-Form], [EAM-*], four naming schemes (plain, option names of other sections, shared variables, ${SECTION:KEY}) and <=2 unreferenced variables (incl. names of real keys): every section's consumer sees exactly the base file; replay: byte-identical output on pair and EAM targets.",
+   note="A variable is never named like an option of the section that refers to it (configparser resolves ${name} in the referring section first). Defect F09 repaired."),
+ "C20": dict(engine="inidoc", design="5 C20", technique="TLA+ model of the reader's duplicate-detection stages (Dups.tla: 20 duplication operators x stages; IniDoc.tla: strict reader on raw vs normalised keys) checked by TLC (NoDuplicateSurvives); every operator x duplicated entry x spelling x position replayed through Configuration.read and the CLI",
+   text="Every way of defining a thing twice (same key, reversed pair, whitespace spellings of A-B / A->B / f(r,a) / Table-Form:name, other arity, table form named like a formula or a built-in, duplicated section; pair-like ADP sections) applied to every entry of 3-species pair / EAM / FS / ADP models at three positions must be refused as a configuration error on both routes.",
+   note="Whitespace variants are spellings with blanks/tabs inside the key (leading whitespace is INI continuation syntax). Defects F13a-c repaired."),
  "C14": dict(engine="inidoc", design="5 C14", technique="TLA+ transcription of potable's option merge rule and ConfigParser's override/addition application (IniDoc.tla) checked by TLC against text-editor semantics (HandEdit) for every option sequence; every case replayed through the CLI and ConfigParser(overrides=, additional=) and compared with tabulating the hand-edited file; --list-items/--item-value compared with the edited document",
    text="EditsAreHandEdits and ListEachOnce for every sequence of <=2 (quick) / <=3 (thorough) options over 3 sections x 3 keys x 2 key spellings x 2 values (one empty), 2 base files; each case rendered under two themes (pair model; EAM model whose sections share key texts) and replayed: outcome class and output bytes equal those of the hand-edited file, listing equals the edited document.",
    note="Options of different kinds are unordered on the command line (overrides, removals, additions); an emptied section may keep or lose its header; identical --remove-item options count once. Defect F06 repaired."),
